@@ -12,7 +12,8 @@ import codec
 import vlib
 
 STR_U = ['', 'a', 'b', 'aa', 'ab', 'ba', 'bb']
-REGEX_SRC = {'ra': 'a', 'rb': 'b+', 'rs': 'a*'}
+REGEX_SRC = {'ra': 'a', 'rb': 'b+', 'rs': 'a*', 'rA': 'A'}
+REGEX_FLAGS = {'': 0, 'I': re.IGNORECASE}
 REGEX_FUNC = {'fullmatch': re.fullmatch, 'match': re.match, 'search': re.search}
 # must equal RegexTab of spec/GlomMatch.tla (checked against Python's re by check_tables)
 REGEX_TAB = {
@@ -33,6 +34,12 @@ def check_tables():
     string order table is Python's order (machinery self-check)."""
     for name, src in REGEX_SRC.items():
         for fn, f in REGEX_FUNC.items():
+            if name == 'rA':         # RegexSet of the specification: nothing without the flag, 'a' with it
+                if {s for s in STR_U if f(src, s)} or {s for s in STR_U if f(src, s, re.I)} != REGEX_TAB['ra'][fn]:
+                    raise vlib.MachineryError('regex rule for rA/%s differs from python' % fn)
+                continue
+            if {s for s in STR_U if f(src, s, re.I)} != {s for s in STR_U if f(src, s)}:
+                raise vlib.MachineryError('IGNORECASE changes %s/%s on the universe' % (name, fn))
             got = {s for s in STR_U if f(src, s)}
             if got != REGEX_TAB[name][fn]:
                 raise vlib.MachineryError('regex table %s/%s: spec %s python %s' % (name, fn, REGEX_TAB[name][fn], got))
@@ -192,8 +199,13 @@ def mkpred(name, pid, ctx):
 def tsteps(steps):
     t = T
     for s in steps:
-        t = t[scalar_py(s)]
+        t = t[slice(s['lo'], None)] if s['k'] == 'slice' else t[scalar_py(s)]
     return t
+
+
+def seq_of(p, items):
+    """multi-valued constructor arguments as the sequence type the case asks for"""
+    return tuple(items) if p.get('seq') == 'tuple' else list(items)
 
 
 def _default(p):
@@ -211,10 +223,13 @@ def mkspec(p, ctx):
         return mkpred(p['name'], p['id'], ctx)
     if op == 'regex':
         f = p['func']
+        kw = {'flags': REGEX_FLAGS[p['flags']]} if p['flags'] else {}
         if f == 'fullmatch' and p['name'] != 'rb':      # func=None means fullmatch
-            return Regex(REGEX_SRC[p['name']])
-        return Regex(REGEX_SRC[p['name']], func=REGEX_FUNC[f])
+            return Regex(REGEX_SRC[p['name']], **kw)
+        return Regex(REGEX_SRC[p['name']], func=REGEX_FUNC[f], **kw)
     if op == 'm':
+        if p['refl']:                                   # constant op M: Python reflects it onto M
+            return CMP[p['cmp']](tree_py(p['rhs']), M)
         return CMP[p['cmp']](M, tree_py(p['rhs']))
     if op == 'mtruthy':
         return M
@@ -241,22 +256,30 @@ def mkspec(p, ctx):
             return ~kid          # whatever the library's operator builds is what gets evaluated
         return Not(kid)
     if op == 'switch':
-        return Switch([(mkspec(k, ctx), mkspec(v, ctx)) for k, v in p['cases']], **_default(p))
+        pairs = [(mkspec(k, ctx), mkspec(v, ctx)) for k, v in p['cases']]
+        if p['form'] == 'dict':
+            cases = dict(pairs)
+            if len(cases) != len(pairs):
+                raise vlib.MachineryError('duplicate key spec in dict-form Switch %r' % (p,))
+            return Switch(cases, **_default(p))
+        return Switch(pairs, **_default(p))
     if op == 'check':
         kw = {}
         if p['types']:
-            kw['type'] = TYPES[p['types'][0]] if len(p['types']) == 1 else [TYPES[t] for t in p['types']]
+            kw['type'] = TYPES[p['types'][0]] if len(p['types']) == 1 else seq_of(p, [TYPES[t] for t in p['types']])
         if p['inst']:
             kw['instance_of'] = TYPES[p['inst'][0]] if len(p['inst']) == 1 else tuple(TYPES[t] for t in p['inst'])
         if p['vals']:
             if p['oneof']:
-                kw['one_of'] = [tree_py(v) for v in p['vals']]
+                kw['one_of'] = seq_of(p, [tree_py(v) for v in p['vals']])
             else:
                 kw['equal_to'] = tree_py(p['vals'][0])
         if p['validate']:
             vs = [mkpred(v['name'], -1, ctx) for v in p['validate']]
-            kw['validate'] = vs[0] if len(vs) == 1 else vs
+            kw['validate'] = vs[0] if len(vs) == 1 and p.get('seq') != 'tuple' else seq_of(p, vs)
         kw.update(_default(p))
+        if p['sub']:
+            return Check(tsteps(p['sub']), **kw)        # Check(spec, ..): conditions on the sub-target
         return Check(**kw)
     if op == 'match':
         return Match(mkspec(p['sub'], ctx), **_default(p))
@@ -280,6 +303,8 @@ def mkspec(p, ctx):
         return Optional(tree_py(p['key']), **_default(p))
     if op == 'required':
         return Required(mkspec(p['key'], ctx))
+    if op == 'wrap':                                    # construction of Optional(key) / Required(key)
+        return (Optional if p['kind'] == 'optional' else Required)(mkspec(p['key'], ctx))
     raise vlib.MachineryError('unknown pattern op %r' % (op,))
 
 
@@ -375,3 +400,55 @@ def pmap(fn, arglists, procs=None, chunk=200):
             raise vlib.MachineryError('worker failed:\n' + part['error'])
         out.extend(part)
     return out
+
+
+# ---- documented constructor refusals (CtorTable of spec/GlomMatch.tla) ---------------------------
+CTOR_CALLS = {
+    'and_no_children': lambda: And(), 'or_no_children': lambda: Or(default=1), 'bool_unknown_kwarg': lambda: And(M, foo=2),
+    'switch_no_cases': lambda: Switch([]), 'switch_not_list_or_dict': lambda: Switch(5),
+    'switch_dict_ok': lambda: Switch({(M > 0): Val(1)}),
+    'regex_bad_func': lambda: Regex('a', func=len), 'regex_func_none': lambda: Regex('a', func=None),
+    'm_of_non_t': lambda: M(5), 'm_of_t': lambda: M(T['a']),
+    'check_equal_to_and_one_of': lambda: Check(equal_to=1, one_of=[1]), 'check_one_of_empty': lambda: Check(one_of=[]),
+    'check_type_not_a_type': lambda: Check(type=5), 'check_validate_not_callable': lambda: Check(validate=5),
+    'check_instance_of_empty': lambda: Check(instance_of=()), 'check_unknown_kwarg': lambda: Check(foo=1),
+    'check_no_conditions': lambda: Check(),
+}
+
+
+def construct(fn):
+    """'ok' or the class name of the exception the constructor call raises"""
+    try:
+        fn()
+    except Exception as e:
+        return type(e).__name__
+    return 'ok'
+
+
+def normalize(p):
+    """fill in the fields later versions of the AST added (generators may omit them)"""
+    p = dict(p)
+    op = p['op']
+    if op == 'regex':
+        p.setdefault('flags', '')
+    elif op == 'm':
+        p.setdefault('refl', False)
+    elif op in ('and', 'or', 'not'):
+        p['c'] = [normalize(c) for c in p['c']]
+    elif op == 'switch':
+        p.setdefault('form', 'list')
+        p['cases'] = [[normalize(k), normalize(v)] for k, v in p['cases']]
+    elif op == 'check':
+        p.setdefault('sub', [])
+        p.setdefault('seq', 'list')
+    elif op == 'match':
+        p['sub'] = normalize(p['sub'])
+    elif op in ('list', 'set', 'frozenset'):
+        p['alts'] = [normalize(a) for a in p['alts']]
+    elif op == 'tuple':
+        p['elems'] = [normalize(a) for a in p['elems']]
+    elif op == 'dict':
+        p['items'] = [[normalize(k), normalize(v)] for k, v in p['items']]
+    elif op in ('required', 'wrap'):
+        p['key'] = normalize(p['key'])
+    return p
